@@ -35,9 +35,11 @@ def run(rep):
     rep.run(C11.anchor_selection, "O5.1")
     rep.alias = {"O11.4": "O5.1"}
     rep.run(C11.consistency)
-    rep.alias = {"O11.4": "O5.1", "O11.3": "O5.1", "O11.2": "O5.1"}
+    rep.alias = {"O11.4": "O5.1", "O11.3": "O5.1", "O11.2": "O5.1", "O11.1": "O5.1"}
     rep.run(C11.dedup_key)
     rep.run(C11.estimate)
+    rep.run(C11.exact)   # with automorphism=True the pruning uses the exact orbits: per-component analysis, no orbit across the anchor
+    rep.run(C11.dedup)   # first occurrence kept, original order (which regio-isomer survives must not depend on enumeration order)
     rep.alias = {"O6.4": "O5.2", "O6.5": "O5.2"}
     rep.run(C06.fallback_and_dispatch)
     rep.run(_comp_fallback)
